@@ -7,7 +7,7 @@
    are additive and homogeneous - the composite statements are proved for ALL expression trees. *)
 From Coq Require Import List Ring ZArith String.
 From Furax Require Import Base.Pytree Model.Op Model.Algebra Model.Denote Model.Wf Model.AsMatrix
-  Lemmas.DenoteL Lemmas.Sound Lemmas.AsMatrixL Lemmas.StructsL Lemmas.AsMatrixExecL.
+  Lemmas.DenoteL Lemmas.Sound Lemmas.AsMatrixL Lemmas.StructsL Lemmas.AsMatrixExecL Lemmas.AsMatrixLoopL.
 Import ListNotations.
 
 Section C04.
@@ -39,15 +39,42 @@ Section C04.
      vector of the flattened input (leaves in pytree order, each row-major; rows likewise), for every
      pytree layout of input and output.  `honest e`: the declared output size is the size of what the
      operator returns (C05).
-     FULL statement (apply_is_matvec): the same with `as_matrix_generic e = Some M` (the transcribed
-     fori_loop with jcounter and basis_input) instead of `generic_columns e = Some cols`; the missing
-     step is `as_matrix_generic e = option_map (mkMat (out_size e)) (generic_columns e)`, which the
-     correspondence checks on every case (x_generic vs Exec.mat vs the real generic as_matrix). *)
+     FULL statement: apply_is_matvec below - the same with `as_matrix_generic e = Some M` (the transcribed
+     fori_loop with jcounter and basis_input) instead of `generic_columns e = Some cols`; the step
+     `as_matrix_generic e = option_map (mkMat (out_size e)) (generic_columns e)` is generic_loop_is_columns
+     (also checked by the correspondence on every case: x_generic vs Exec.mat vs the real generic as_matrix). *)
   Theorem apply_is_matvec_partial : forall e cols, honest K kadd kmul leafsem e ->
     generic_columns K k0 k1 kadd kmul leafsem e = Some cols ->
     forall x y, vhas K x (in_struct e) = true -> den e x = Some y ->
     vflat K y = matvec K k0 kadd kmul (mkMat (out_size e) cols) (vflat K x).
   Proof. exact (columns_matvec K k0 k1 kadd kmul ksub kopp Kth leafsem LA). Qed.
+
+  (* LOOP, proved (Lemmas/AsMatrixLoopL.v): the transcribed fori_loop of AbstractLinearOperator.as_matrix
+     (per input leaf: zeros = in_leaves_ref.copy(); zeros[ileaf] = leaf.ravel().at[index].set(1); unflatten;
+     mv; matrix.at[:, jcounter].set(...); jcounter += 1) builds exactly the matrix whose j-th column is the
+     flattened image of the j-th basis vector of the flattened input.  NO premise: every operator term, every
+     pytree structure (empty leaves / containers included), every leaf semantics; undefined on one side
+     iff undefined on the other. *)
+  Theorem generic_loop_is_columns : forall e,
+    as_matrix_generic K k0 k1 kadd kmul leafsem e =
+    option_map (mkMat (out_size e)) (generic_columns K k0 k1 kadd kmul leafsem e).
+  Proof. exact (generic_loop_eq K k0 k1 kadd kmul leafsem). Qed.
+
+  (* the input the loop body builds for (ileaf, index) is the basis vector number
+     (sizes of the leaves before ileaf) + index of the flattened input *)
+  Theorem loop_input_is_basis_vector : forall s il idx,
+    il < List.length (flatten s) -> idx < nth il (map leaf_size (flatten s)) 0 ->
+    basis_input K k0 k1 s il idx =
+    basis_value K k0 k1 s (lsum (firstn il (map leaf_size (flatten s))) + idx).
+  Proof. exact (basis_input_value K k0 k1). Qed.
+
+  (* FULL form of apply_is_matvec_partial: op(x) = M flat(x) for the matrix M returned by the transcribed
+     generic as_matrix loop *)
+  Theorem apply_is_matvec : forall e M, honest K kadd kmul leafsem e ->
+    as_matrix_generic K k0 k1 kadd kmul leafsem e = Some M ->
+    forall x y, vhas K x (in_struct e) = true -> den e x = Some y ->
+    vflat K y = matvec K k0 kadd kmul M (vflat K x).
+  Proof. exact (generic_matvec K k0 k1 kadd kmul ksub kopp Kth leafsem LA). Qed.
 
   (* ---- every override ---- *)
   Section Overrides.
@@ -57,8 +84,9 @@ Section C04.
     Notation gen := (as_matrix_generic K k0 k1 kadd kmul leafsem).
     Notation represents := (repr K k0 kadd kmul leafsem).
     (* the premises of the composite theorem:
-       LOOP  the transcribed fori_loop builds the matrix of columns (NOT proved: `_partial`; checked by the
-             correspondence on every case: x_generic = Exec.mat = the real generic as_matrix)
+       LOOP  the transcribed fori_loop builds the matrix of columns (a premise of the two `_partial`
+             theorems of this section only; PROVED since: generic_loop_is_columns, and discharged in
+             override_represents / override_eq_generic below)
        HON   C05: what a well-formed operator returns has its declared output size (NOT proved here)
        HOV   leaf-level overrides (C11 diag_as_matrix, C09 as_matrix_times_x) represent their leaf
        HRESH ravel/reshape: eye(in_size) represents the relabelling
@@ -83,10 +111,43 @@ Section C04.
     Proof. exact (override_repr K k0 k1 kadd kmul ksub kopp Kth leafsem LA leaf_override minv LOOP HON HOV HRESH HINV HSOLVE). Qed.
 
     (* ... hence it IS the matrix of the generic construction.
-       FULL statement (override_eq_generic): the same without the premises LOOP and HON. *)
+       override_eq_generic below: the same without the premise LOOP (HON: honesty_premise_from_C05). *)
     Theorem override_eq_generic_partial : forall e M G, wfo e = true -> asm e = Some M -> gen e = Some G -> M = G.
     Proof. exact (override_eq_generic_l K k0 k1 kadd kmul ksub kopp Kth leafsem LA leaf_override minv LOOP HON HOV HRESH HINV HSOLVE). Qed.
   End Overrides.
+
+  (* ---- the same two theorems WITHOUT the premise LOOP (now generic_loop_is_columns) ---- *)
+  Section OverridesLoopFree.
+    Variable leaf_override : op K -> option (mat K).
+    Variable minv : mat K -> option (mat K).
+    Notation asm := (as_matrix K k0 k1 kadd kmul leafsem leaf_override minv).
+    Notation gen := (as_matrix_generic K k0 k1 kadd kmul leafsem).
+    Notation represents := (repr K k0 kadd kmul leafsem).
+    (* remaining premises, as above: HON (C05; from honest leaves by honesty_premise_from_C05), HOV, HRESH,
+       HINV, HSOLVE *)
+    Hypothesis HON : forall e, wfo e = true -> honest K kadd kmul leafsem e.
+    Hypothesis HOV : forall e M, leaf_override e = Some M -> represents e M.
+    Hypothesis HRESH : forall i c si so p, c = CRavel \/ c = CReshape ->
+      represents (Prim i c si so p) (eye K k0 k1 (in_size (Prim i c si so p : op K))).
+    Hypothesis HINV : forall M N, minv M = Some N ->
+      mwf K N /\ m_nr N = List.length (m_cols M) /\ List.length (m_cols N) = m_nr M /\
+      forall w, List.length w = List.length (m_cols M) -> matvec K k0 kadd kmul N (matvec K k0 kadd kmul M w) = w.
+    Hypothesis HSOLVE : forall i w e z y1, w = WInverse \/ w = WQURotT ->
+      vhas K z (out_struct e) = true -> leafsem (Wrap i w e) z = Some y1 ->
+      den e y1 = Some z /\ vhas K y1 (in_struct e) = true.
+
+    Theorem override_represents : forall e, wfo e = true -> forall M, asm e = Some M -> represents e M.
+    Proof.
+      exact (override_repr K k0 k1 kadd kmul ksub kopp Kth leafsem LA leaf_override minv
+               (generic_loop_eq K k0 k1 kadd kmul leafsem) HON HOV HRESH HINV HSOLVE).
+    Qed.
+
+    Theorem override_eq_generic : forall e M G, wfo e = true -> asm e = Some M -> gen e = Some G -> M = G.
+    Proof.
+      exact (override_eq_generic_l K k0 k1 kadd kmul ksub kopp Kth leafsem LA leaf_override minv
+               (generic_loop_eq K k0 k1 kadd kmul leafsem) HON HOV HRESH HINV HSOLVE).
+    Qed.
+  End OverridesLoopFree.
 
   (* the class-by-class steps, free of the premises above: a sum / block operator of represented operands
      is represented by the sum / hstack / block_diag / vstack of their matrices (leaf order = pytree order) *)
@@ -131,6 +192,11 @@ Print Assumptions denote_linear.
 Print Assumptions apply_is_matvec_partial.
 Print Assumptions override_represents_partial.
 Print Assumptions override_eq_generic_partial.
+Print Assumptions generic_loop_is_columns.
+Print Assumptions loop_input_is_basis_vector.
+Print Assumptions apply_is_matvec.
+Print Assumptions override_represents.
+Print Assumptions override_eq_generic.
 Print Assumptions sum_represents.
 Print Assumptions block_represents.
 Print Assumptions identity_scalar_override_is_generic.
